@@ -1747,7 +1747,7 @@ def instance_state_writes(tree: ast.Module) -> list[tuple[str, str, str, str]]:
 
 
 PERCENTILE_LOOP = """for _ in range(data.size(0)):
-    non_padded_coil_data = data[_][data[_].sum(dim=tuple(range(1, data[_].ndim))).bool()]
+    non_padded_coil_data = data[_][(data[_] != 0).flatten(1).any(dim=1)]
     tview = -1.0 * T.modulus(non_padded_coil_data).view(-1)
     s, _ = torch.kthvalue(tview, int((1 - self.percentile) * tview.size()[0]) + 1)
     scaling_factor += [-1.0 * s]"""
